@@ -14,7 +14,7 @@ use crate::gen::G;
 use crate::peers::{Act, HttpPeer, Script, Seen};
 use crate::runner::{violation, RunCtx, RunReport, Stats, Verdict};
 
-const CHAIN_LEN: usize = 8;
+const CHAIN_LEN: usize = 4;
 const FINAL_FIELDS: usize = 6;
 const REDIRECT_FIELDS: usize = 2;
 
@@ -85,8 +85,8 @@ enum Op {
 
 fn gen_set(g: &mut G) -> Set {
     match g.below(11) {
-        0 => Set::MaxHeaders(*g.pick(&[1usize, 4, 100])),
-        1 => Set::MaxRedir(*g.pick(&[0u32, 3, 20])),
+        0 => Set::MaxHeaders(*g.pick(&[1usize, 4, 100, 100])),
+        1 => Set::MaxRedir(*g.pick(&[0u32, 3, 4, 20])),
         2 => Set::Follow(g.chance(1, 2)),
         3 => Set::ConnectTimeout(*g.pick(&[300u64, 2000])),
         4 => Set::ReadTimeout(*g.pick(&[200u64, 5000])),
